@@ -6,7 +6,9 @@ PROPERTY = {
     'map on collections) for every input tree; __process_node overwrites the '
     'tag of every node with the tag of the type recognised AT THAT POSITION '
     'and strips below Any; Constructor.__strip_extra_attributes makes every '
-    'value below a non-parameter key plain and rejects non-str keys; the '
+    'value below a non-parameter key plain and rejects non-str keys, and '
+    'Constructor.__call__ is verified to do that before anything is '
+    'constructed from the node; the '
     'recogniser only ever returns registered concrete classes.',
     'trusted': LOAD_TRUSTED + [
         'E-SAFE: yaml.SafeLoader constructs only plain data for core tags '
@@ -16,6 +18,7 @@ PROPERTY = {
 
 
 def check(run):
-    from checks.main import reflection_bounded
+    from checks.main import reflection_bounded, splitoff_bounded
     reflection_bounded(run)
+    splitoff_bounded(run)
     run.verify_functions(STRIP + CONSTR + LOADER + RECOGNIZER)
